@@ -41,7 +41,9 @@ REQUIRED = ["entries_injective", "einv_fresh", "bit_set_get", "bit_total", "serv
             "verify_trust_at_refines", "resolve_never_presents_revoked_as_valid", "resolve_valid_only_if_not_revoked", "resolve_revoked_says_revoked",
             "search_omits_revoked", "resolve_after_revocation_in_history", "fact_resolve_and_search_sites",
             # VerifyVP (NutsProofs.Props.C11Present)
-            "vp_accepted_only_without_revoked_credentials", "vp_with_revoked_credential_refused", "vp_of_revoked_credential_says_revoked", "fact_verify_vp_chain"]
+            "vp_accepted_only_without_revoked_credentials", "vp_with_revoked_credential_refused", "vp_of_revoked_credential_says_revoked", "fact_verify_vp_chain",
+            # JSON typing of status entries (NutsProofs.Props.C11CredStatusJson)
+            "validate_json_refines_wire", "validated_entries_have_string_index", "non_string_index_refused"]
 
 ENTRY_RE = re.compile(r"(n\d+/\S+/\d+) (\S+) wf=(\w+)")
 
@@ -447,7 +449,9 @@ def voracle(ops, impl):
                 if mal == "othertype":
                     continue
                 n = ref_atoi(st.get("idx", ""))
-                if mal in ("noid", "idislist", "notype", "nopurpose", "badurl") or n is None or n < 0 or op.get("noslctx"):
+                if mal in ("numidx", "boolidx", "objidx", "nullidx", "numpurpose"):
+                    stats["verify-with-non-string-json-member:" + mal] += 1
+                if mal in ("noid", "idislist", "notype", "nopurpose", "badurl", "numidx", "boolidx", "objidx", "nullidx", "numpurpose") or n is None or n < 0 or op.get("noslctx"):
                     malformed = st
                     break
             if op.get("statuses"):
@@ -783,7 +787,7 @@ def run_verifier_harness(ctx):
 
 def run(ctx):
     facts = ctx.facts()
-    thms = ctx.build_and_audit(["NutsProofs.Props.C11", "NutsProofs.Props.C11Wire", "NutsProofs.Props.C11ValidAt", "NutsProofs.Props.C11Rebase", "NutsProofs.Props.C11CredStatus", "NutsProofs.Props.C11Reprocess", "NutsProofs.Props.C11Resolve", "NutsProofs.Props.C11Present"])
+    thms = ctx.build_and_audit(["NutsProofs.Props.C11", "NutsProofs.Props.C11Wire", "NutsProofs.Props.C11ValidAt", "NutsProofs.Props.C11Rebase", "NutsProofs.Props.C11CredStatus", "NutsProofs.Props.C11Reprocess", "NutsProofs.Props.C11Resolve", "NutsProofs.Props.C11Present", "NutsProofs.Props.C11CredStatusJson"])
     for r in REQUIRED:
         if not any(t.endswith("Props." + r) for t in thms):
             ctx.oblige("thm-present:" + r, False, "theorem missing or its module does not build")
